@@ -393,6 +393,7 @@ inductive PC where
   | getitem      -- get: at `cache[obj.id]`
   | setitem      -- at `cache[id] = obj`   (under the lock; pinned get: after releasing it)
   | rel          -- at the lock's release
+  | source       -- add, `AddProto.sourceAfterRelease` only: at `generate_source(x)`, after the `with` block
   | done
 deriving Repr, DecidableEq
 
@@ -463,6 +464,7 @@ def stepT (v : Variant) (s : S) (t : Bool) : S :=
     match th.pend with
     | .none => setTh { s with lock := none } t { th with pc := .setitem }     -- pinned: falls out of the `with` block
     | r => setTh { s with lock := none } t { th with pc := .done, res := r }
+  | .get, .source => s                                    -- not a point of a retrieval
   -- add (repaired: the whole body under the lock) ------------------------------------------------
   | .add, .start => setTh s t { th with pc := .acq }
   | .add, .acq =>
@@ -477,6 +479,36 @@ def stepT (v : Variant) (s : S) (t : Bool) : S :=
     setTh s'' t { th with pend := .unit, pc := .rel }
   | .add, .rel => setTh { s with lock := none } t { th with pc := .done, res := th.pend }
   | .add, _ => s
+
+/-- Where `add()` binds the object's source.  In the code it is the last statement INSIDE the `with lock:` block - and has to
+    be: `get_identifiable_by_hash` reuses a cached replica only if its source is this store's.  `sourceAfterRelease` is the
+    protocol with that statement moved behind the block (one dedent); between the harness' yield points the two cannot be told
+    apart, so the finer variant exists in the model (and as a finer scheduler in the oracle) only. -/
+inductive AddProto where
+  | sourceUnderLock
+  | sourceAfterRelease
+deriving Repr, DecidableEq
+
+/-- thread `t` advances one step under the given `add` protocol (retrievals and everything else as `stepT .fixed`) -/
+def stepA (a : AddProto) (s : S) (t : Bool) : S :=
+  match a with
+  | .sourceUnderLock => stepT .fixed s t
+  | .sourceAfterRelease =>
+    let th := thOf s t
+    match th.prog, th.pc with
+    | .add, .setitem => setTh { s with cache := some (added t) } t { th with pend := .unit, pc := .rel }
+    | .add, .rel =>
+      match th.pend with
+      | .unit => setTh { s with lock := none } t { th with pc := .source }
+      | r => setTh { s with lock := none } t { th with pc := .done, res := r }
+    | .add, .source =>
+      let s' := if t then { s with boundX1 := true } else { s with boundX0 := true }
+      setTh s' t { th with pc := .done, res := .unit }
+    | _, _ => stepT .fixed s t
+
+def runA (a : AddProto) (s : S) : List Bool → S
+  | [] => s
+  | t :: r => runA a (stepA a s t) r
 
 def runS (v : Variant) (s : S) : List Bool → S
   | [] => s
@@ -513,6 +545,16 @@ def resOk (s : S) (th : Th) : Bool :=
 def coherent (init s : S) : Bool :=
   resOk s s.t0 && resOk s s.t1 &&
   (!(init.file) || ((s.t0.prog != .get || s.t0.res != .keyError) && (s.t1.prog != .get || s.t1.res != .keyError)))
+
+/-- an `add()` that returned normally made ITS object the live one: the cache holds it, it is bound to the store, and a
+    retrieval that returned an object returned that one -/
+def addedLive (s : S) : Bool :=
+  bools.all (fun t =>
+    (thOf s t).res != .unit ||
+    (s.cache == some (added t) && boundOf s (added t) &&
+      (match (thOf s (!t)).res with
+       | .ref r => r == added t
+       | _ => true)))
 
 end Conc
 
